@@ -518,12 +518,32 @@ def gen_shift_world(rng: random.Random, n_steps: int, dt: Optional[int] = None) 
     for k in range(2):
         vehicles.append({"id": f"hs{k+1}", "lat": c3[0] + 0.0004 * (k + 1), "lon": c3[1], "mech": "leaf_50", "soc": rng.choice([0.03, 0.04]),
                          "schedule": "shortbreak", "home_base": "b1"})
+    if rng.random() < 0.35:
+        # a crowded home: one stall only, with a plug, taken by an autonomous vehicle that parks there right away - the
+        # human drivers whose shift ends (often while they are on their way to a request) find no room at home
+        stations.append({"id": "bs_home", "lat": c0[0], "lon": c0[1], "plugs": [("LEVEL_2", 1, False)]})
+        bases[0].update({"station": "bs_home", "stalls": 1})
+        vehicles.append({"id": "a0", "lat": c0[0], "lon": c0[1], "mech": "leaf_50", "soc": 0.6})
+        w["dispatcher"] = dict(w.get("dispatcher") or {}, idle_time_out_seconds=dt)
+        for v in vehicles:
+            if v.get("schedule") and v["id"].startswith("h") and not v["id"].startswith("hs"):
+                v["lat"], v["lon"] = c1[0], c1[1]          # the humans start in town, not at home
+        # a busy hour in town: a request every step a kilometre or so from the drivers, and six more drivers whose shifts
+        # end one after the other during it
+        for k in range(6):
+            sid = f"end{k}"
+            sched.append((sid, _hms(on_grid(0)), _hms(on_grid(14 + 5 * k))))
+            vehicles.append({"id": f"he{k+1}", "lat": c1[0], "lon": c1[1], "mech": "leaf_50", "soc": 0.9, "schedule": sid, "home_base": "b1"})
+        for k in range(min(50, n_steps - 2)):
+            o = world.at(500 + rng.uniform(-900, 900), 300 + rng.uniform(-900, 900))
+            requests.append({"id": f"b{k+1:03d}", "o": o, "d": c1, "dep": start + dt * k + rng.randrange(0, dt), "pax": 1, "fleet": None})
+        requests.sort(key=lambda r: (r["dep"], r["id"]))
     if rng.random() < 0.4:
         # everybody in one fleet, parked vehicles dispatchable (as in the shipped manhattan scenario)
         w["fleets"] = {"fa": {"vehicles": [v["id"] for v in vehicles], "stations": [], "bases": []}}
         for r in requests:
             r["fleet"] = "fa"
-        w["dispatcher"] = {"valid_dispatch_states": ["idle", "repositioning", "reservebase", "chargingbase"]}
+        w["dispatcher"] = dict(w.get("dispatcher") or {}, valid_dispatch_states=["idle", "repositioning", "reservebase", "chargingbase"])
     return w
 
 
